@@ -285,3 +285,40 @@ def files_job(job) -> dict:
                 "case": {"kind": "files", "job": job}, "stuck": ""}
     finally:
         shutil.rmtree(parent, ignore_errors=True)
+
+
+def deprecated_files_job(job) -> dict:
+    """The deprecated entry point pyxel.observation_mode with outputs: no report is returned, the files are
+    attributed by their run number - file <bucket>_<n> holds the bucket of the n-th parameter combination
+    (in run-index order), each exactly once, whatever the scheduler and the completion order."""
+    import dask
+    import pyxel
+    from pyxel.outputs import ObservationOutputs
+
+    from harness import obs
+    parent = Path(tempfile.mkdtemp(prefix="depfiles_", dir=os.environ.get("VERIF_WORK", px.VERIF + "/.work")))
+    out = {"job": job, "error": "", "files": {}, "expected": {}}
+    try:
+        with warnings.catch_warnings():
+            warnings.simplefilter("ignore")
+            outp = ObservationOutputs(output_folder=parent, save_data_to_file=[{"detector.photon.array": ["npy"]}])
+            o, det, pipe, targets, tmp, msg = obs.build(job["ocfg"], job.get("variant", 0), outputs=outp,
+                                                        delay=job.get("delay", 0.0))
+            # reference: the sequential execution of the same space (values per run index)
+            dkw = {"scheduler": job["scheduler"]} if job.get("scheduler") else {}
+            if job.get("workers"):
+                dkw["num_workers"] = job["workers"]
+            with dask.config.set(**dkw):
+                pyxel.observation_mode(observation=o, detector=det, pipeline=pipe)
+            own = Path(outp.current_output_folder)
+            for f in sorted(own.glob("detector_photon_array_*.npy")):
+                n = int(f.stem.rsplit("_", 1)[1])
+                out["files"][n] = int(px.level_of(np.load(f)))
+            if tmp:
+                shutil.rmtree(tmp, ignore_errors=True)
+    except Exception:
+        import traceback
+        out["error"] = traceback.format_exc()[-500:]
+    finally:
+        shutil.rmtree(parent, ignore_errors=True)
+    return out
